@@ -225,6 +225,7 @@ func ruleStyleID(r *Run, onlyPkg string) {
 	}
 	levels := [2]int64{1, 9} // heading / TOC levels (documented domain of the API)
 	n := 0
+	distinct := map[string]bool{} // emitted id patterns (robust to emission sites being merged or split)
 	var emit func(fn *ssa.Function, v ssa.Value, pos token.Pos, what string)
 	emit = func(fn *ssa.Function, v ssa.Value, pos token.Pos, what string) {
 		if ph, ok := v.(*ssa.Phi); ok {
@@ -261,6 +262,7 @@ func ruleStyleID(r *Run, onlyPkg string) {
 				pat = strings.ReplaceAll(pat, "⟨"+part.Sym.Name()+"⟩", "%d")
 			}
 		}
+		distinct[pat] = true
 		note := ""
 		if assumed {
 			note = " (integer part expanded over levels 1..9)"
@@ -326,13 +328,15 @@ func ruleStyleID(r *Run, onlyPkg string) {
 			}
 			id := constant.StringVal(c.Val())
 			n++
+			distinct[id] = true
 			_, def := reg[id]
 			r.Check("style-id", "const:"+name, c.Pos(), def,
 				fmt.Sprintf("exported table style template constant %s = %q is written to w:tblStyle by ApplyTableStyle but no style with that id is defined in the styles part the library generates", name, id))
 		}
 	}
 	r.Count("functions_unreachable_from_api_skipped", dead)
-	r.Min("style_id_emissions", n, 3)
+	r.Count("style_id_emission_sites", n)
+	r.Min("style_id_emissions", len(distinct), 2)
 }
 
 var styleParamCache = map[*ssa.Function]map[int]bool{}
@@ -428,7 +432,7 @@ func rulePartDep(r *Run) {
 	// (c) C04 side: the existing styles part is never discarded — the store is guarded by an existence test
 	if fn := p.Func(pkgDoc, "(*Document).serializeStyles"); fn != nil {
 		guarded := false
-		allInstrs(fn, func(in ssa.Instruction) {
+		forEachInstr(helperGroup(p, fn), func(in ssa.Instruction) {
 			if lk, ok := in.(*ssa.Lookup); ok && lk.CommaOk {
 				if k, ok := symOf(lk.Index).isConst(); ok && k == "word/styles.xml" {
 					guarded = true
@@ -450,17 +454,14 @@ func ruleMustUpdate(r *Run) {
 		return
 	}
 	var regInst, regAbs, upd []ssa.Instruction
+	var instVals []ssa.Value
 	allInstrs(fn, func(in ssa.Instruction) {
 		switch x := in.(type) {
 		case *ssa.MapUpdate:
 			ch, _ := addrChain(x.Map)
-			if len(ch) > 0 {
-				switch ch[len(ch)-1].Name() {
-				case "numInstances":
-					regInst = append(regInst, x)
-				case "abstractNums":
-					regAbs = append(regAbs, x)
-				}
+			if len(ch) > 0 && ch[len(ch)-1].Name() == "numInstances" {
+				regInst = append(regInst, x)
+				instVals = append(instVals, x.Value)
 			}
 		case *ssa.Call:
 			if cal := staticCallee(x); cal != nil && cal.Name() == "updateNumberingFile" {
@@ -468,6 +469,16 @@ func ruleMustUpdate(r *Run) {
 			}
 		}
 	})
+	// the get-or-create of the abstract definition may live in a private helper of this function
+	for _, g := range helperGroup(p, fn) {
+		allInstrs(g, func(in ssa.Instruction) {
+			if x, ok := in.(*ssa.MapUpdate); ok {
+				if ch, _ := addrChain(x.Map); len(ch) > 0 && ch[len(ch)-1].Name() == "abstractNums" {
+					regAbs = append(regAbs, x)
+				}
+			}
+		})
+	}
 	for _, ret := range returnsOf(fn) {
 		r.Check("must-update", "getOrCreateNumbering:instance", ret.Pos(), mustPassThrough(fn, ret, regInst), "the returned numId is registered as a numbering instance on every path")
 		r.Check("must-update", "getOrCreateNumbering:part", ret.Pos(), mustPassThrough(fn, ret, upd), "the numbering part is regenerated on every path before the numId is handed out")
@@ -475,20 +486,16 @@ func ruleMustUpdate(r *Run) {
 	// the abstract definition is registered whenever it was newly created
 	r.Check("must-update", "getOrCreateNumbering:abstract", fn.Pos(), len(regAbs) > 0, "a newly created abstract definition is stored in the registry")
 	// the instance refers to the abstract definition found or created in this call
+	// (data dependence of the registered instance, through constructor helpers, on a read of
+	// AbstractNum.AbstractNumID; no control dependence)
 	okRef := false
-	allInstrs(fn, func(in ssa.Instruction) {
-		st, ok := in.(*ssa.Store)
-		if !ok {
-			return
+	sl := newSlicer(p)
+	sl.dataOnly = true
+	for _, v := range instVals {
+		if sl.Slice(v).readsField(p, pkgDoc, "AbstractNum", "AbstractNumID") {
+			okRef = true
 		}
-		fv, _ := fieldOfAddr(st.Addr)
-		if fieldIs(p, fv, pkgDoc, "AbstractNumReference", "Val") {
-			ch, _ := valueChain(st.Val)
-			if len(ch) > 0 && fieldIs(p, ch[len(ch)-1], pkgDoc, "AbstractNum", "AbstractNumID") {
-				okRef = true
-			}
-		}
-	})
+	}
 	r.Check("must-update", "getOrCreateNumbering:reference", fn.Pos(), okRef, "the instance's abstractNumId is read from the abstract definition selected in this call")
 }
 
